@@ -107,7 +107,7 @@ Proof. intros Hrep Hor Henv.
   destruct o.
   - (* offer *)
     pose proof (step_shape tlen mtu ses n0 off0 Hn0 Hoff0 Hmtu32 F pinv FK m rv s sp _ Hrep Henv) as Hsh. cbv zeta in Hsh.
-    destruct (sys_step F m rv s (SOffer k len)) as [s' [[r ds] ms]]. destruct Hsh as (-> & -> & Himg & Hshape & Hcl).
+    destruct (sys_step F m rv s (SOffer k len)) as [s' [[r ds] ms]]. destruct Hsh as (-> & -> & Himg & Hshape & Hcl & Hsame).
     cbn [fst snd event_of spec_step sys_obs map] in *. unfold image_position. rewrite Hopen'.
     assert (Hlen : 0 <= len) by (unfold env_ok, append_ok in Henv; lia).
     assert (Hnopen : sp_open sp = None) by (apply Hoi; unfold env_ok, append_ok in Henv; lia).
@@ -135,12 +135,14 @@ Proof. intros Hrep Hor Henv.
     + cbn [on_result judge_append]. eexists. split; [reflexivity|].
       constructor; cbn [o_pos o_pend o_queue o_sub o_closed sp_stream sp_open sp_acc sp_del]; try (apply next_term_spec; exact Opos); try (rewrite Himg; exact Osub); try (intros Hc; apply Oclosed, Hcl, Hc); try (exists dq; auto); auto.
     + rewrite (on_result_refuse tlen mtu n0 off0) by assumption.
-      assert (Hj : judge_append gO st (Err e) (c_req gO len) (fun p => mkOst p (o_pend st) (o_queue st ++ [(k, len, p)]) (o_sub st) (o_closed st)) = Some st).
-      { unfold judge_append. destruct e; try discriminate; reflexivity. }
+      assert (Hj : judge_append gO st (Err e) (fl_position F m (sy_pub s')) (c_req gO len) (fun p => mkOst p (o_pend st) (o_queue st ++ [(k, len, p)]) (o_sub st) (o_closed st)) = Some st).
+      { unfold judge_append. destruct e; try discriminate; try reflexivity.
+        rewrite (Hsame _ eq_refl eq_refl), (rep_pubpos tlen mtu ses n0 off0 F pinv FK m _ _ Hrep Hnopen). fold gg. rewrite <- Opos.
+        unfold after_max. destruct (ps_closed _); [reflexivity|]. assert (E : (o_pos st <? o_pos st) = false) by lia. rewrite E, andb_false_r. reflexivity. }
       rewrite Hj. eexists. split; [reflexivity|]. constructor; try (apply next_term_spec; exact Opos); try (rewrite Himg; exact Osub); try (intros Hc; apply Oclosed, Hcl, Hc); try (exists dq; auto); auto.
   - (* claim *)
     pose proof (step_shape tlen mtu ses n0 off0 Hn0 Hoff0 Hmtu32 F pinv FK m rv s sp _ Hrep Henv) as Hsh. cbv zeta in Hsh.
-    destruct (sys_step F m rv s (SClaim len)) as [s' [[r ds] ms]]. destruct Hsh as (-> & -> & Himg & Hshape & Hcl).
+    destruct (sys_step F m rv s (SClaim len)) as [s' [[r ds] ms]]. destruct Hsh as (-> & -> & Himg & Hshape & Hcl & Hsame).
     cbn [fst snd event_of spec_step sys_obs map] in *. unfold image_position. rewrite Hopen'.
     assert (Hlen : 0 <= len) by (unfold env_ok, append_ok in Henv; lia).
     assert (Hnopen : sp_open sp = None) by (apply Hoi; unfold env_ok, append_ok in Henv; lia).
@@ -158,12 +160,14 @@ Proof. intros Hrep Hor Henv.
     + cbn [on_result judge_append]. eexists. split; [reflexivity|].
       constructor; cbn [o_pos o_pend o_queue o_sub o_closed sp_stream sp_open sp_acc sp_del]; try (apply next_term_spec; exact Opos); try (rewrite Himg; exact Osub); try (intros Hc; apply Oclosed, Hcl, Hc); try (exists dq; auto); auto.
     + rewrite (on_result_refuse tlen mtu n0 off0) by assumption.
-      assert (Hj : judge_append gO st (Err e) (align (32 + len) 32) (fun p => mkOst (o_pos st) (Some (len, p)) (o_queue st) (o_sub st) (o_closed st)) = Some st).
-      { unfold judge_append. destruct e; try discriminate; reflexivity. }
+      assert (Hj : judge_append gO st (Err e) (fl_position F m (sy_pub s')) (align (32 + len) 32) (fun p => mkOst (o_pos st) (Some (len, p)) (o_queue st) (o_sub st) (o_closed st)) = Some st).
+      { unfold judge_append. destruct e; try discriminate; try reflexivity.
+        rewrite (Hsame _ eq_refl eq_refl), (rep_pubpos tlen mtu ses n0 off0 F pinv FK m _ _ Hrep Hnopen). fold gg. rewrite <- Opos.
+        unfold after_max. destruct (ps_closed _); [reflexivity|]. assert (E : (o_pos st <? o_pos st) = false) by lia. rewrite E, andb_false_r. reflexivity. }
       rewrite Hj. eexists. split; [reflexivity|]. constructor; try (apply next_term_spec; exact Opos); try (rewrite Himg; exact Osub); try (intros Hc; apply Oclosed, Hcl, Hc); try (exists dq; auto); auto.
   - (* commit *)
     pose proof (step_shape tlen mtu ses n0 off0 Hn0 Hoff0 Hmtu32 F pinv FK m rv s sp _ Hrep Henv) as Hsh. cbv zeta in Hsh.
-    destruct (sys_step F m rv s (SCommit k)) as [s' [[r ds] ms]]. destruct Hsh as (-> & -> & Himg & Hshape & Hcl).
+    destruct (sys_step F m rv s (SCommit k)) as [s' [[r ds] ms]]. destruct Hsh as (-> & -> & Himg & Hshape & Hcl & Hsame).
     cbn [result_shape] in Hshape. subst r.
     cbn [fst snd event_of spec_step sys_obs map] in *. unfold image_position. rewrite Hopen'.
     assert (Hisopen : sy_open s = true) by (unfold env_ok in Henv; lia).
@@ -179,7 +183,7 @@ Proof. intros Hrep Hor Henv.
       auto.
   - (* abort *)
     pose proof (step_shape tlen mtu ses n0 off0 Hn0 Hoff0 Hmtu32 F pinv FK m rv s sp _ Hrep Henv) as Hsh. cbv zeta in Hsh.
-    destruct (sys_step F m rv s SAbort) as [s' [[r ds] ms]]. destruct Hsh as (-> & -> & Himg & Hshape & Hcl).
+    destruct (sys_step F m rv s SAbort) as [s' [[r ds] ms]]. destruct Hsh as (-> & -> & Himg & Hshape & Hcl & Hsame).
     cbn [result_shape] in Hshape. subst r.
     cbn [fst snd event_of spec_step sys_obs map] in *. unfold image_position. rewrite Hopen'.
     assert (Hisopen : sy_open s = true) by (unfold env_ok in Henv; lia).
@@ -222,28 +226,28 @@ Proof. intros Hrep Hor Henv.
         destruct q; [constructor|]. inversion Hq; subst. apply IHn; assumption.
   - (* set limit *)
     pose proof (step_shape tlen mtu ses n0 off0 Hn0 Hoff0 Hmtu32 F pinv FK m rv s sp _ Hrep Henv) as Hsh. cbv zeta in Hsh.
-    destruct (sys_step F m rv s (SSetLimit v)) as [s' [[r ds] ms]]. destruct Hsh as (-> & -> & Himg & Hshape & Hcl).
+    destruct (sys_step F m rv s (SSetLimit v)) as [s' [[r ds] ms]]. destruct Hsh as (-> & -> & Himg & Hshape & Hcl & Hsame).
     cbn [result_shape] in Hshape. subst r.
     cbn [fst snd event_of spec_step sys_obs map] in *. unfold image_position. rewrite Hopen'.
     cbn [judge nil_b is_ok0]. rewrite Himg, <- Osub, Z.eqb_refl. cbn [andb].
     eexists. split; [reflexivity|]. constructor; try (apply next_term_spec; exact Opos); try (rewrite Himg; exact Osub); try (intros Hc; apply Oclosed, Hcl, Hc); try (exists dq; auto); auto.
   - (* clean *)
     pose proof (step_shape tlen mtu ses n0 off0 Hn0 Hoff0 Hmtu32 F pinv FK m rv s sp _ Hrep Henv) as Hsh. cbv zeta in Hsh.
-    destruct (sys_step F m rv s (SClean i)) as [s' [[r ds] ms]]. destruct Hsh as (-> & -> & Himg & Hshape & Hcl).
+    destruct (sys_step F m rv s (SClean i)) as [s' [[r ds] ms]]. destruct Hsh as (-> & -> & Himg & Hshape & Hcl & Hsame).
     cbn [result_shape] in Hshape. subst r.
     cbn [fst snd event_of spec_step sys_obs map] in *. unfold image_position. rewrite Hopen'.
     cbn [judge nil_b is_ok0]. rewrite Himg, <- Osub, Z.eqb_refl. cbn [andb].
     eexists. split; [reflexivity|]. constructor; try (apply next_term_spec; exact Opos); try (rewrite Himg; exact Osub); try (intros Hc; apply Oclosed, Hcl, Hc); try (exists dq; auto); auto.
   - (* connected *)
     pose proof (step_shape tlen mtu ses n0 off0 Hn0 Hoff0 Hmtu32 F pinv FK m rv s sp _ Hrep Henv) as Hsh. cbv zeta in Hsh.
-    destruct (sys_step F m rv s (SSetConnected b)) as [s' [[r ds] ms]]. destruct Hsh as (-> & -> & Himg & Hshape & Hcl).
+    destruct (sys_step F m rv s (SSetConnected b)) as [s' [[r ds] ms]]. destruct Hsh as (-> & -> & Himg & Hshape & Hcl & Hsame).
     cbn [result_shape] in Hshape. subst r.
     cbn [fst snd event_of spec_step sys_obs map] in *. unfold image_position. rewrite Hopen'.
     cbn [judge nil_b is_ok0]. rewrite Himg, <- Osub, Z.eqb_refl. cbn [andb].
     eexists. split; [reflexivity|]. constructor; try (apply next_term_spec; exact Opos); try (rewrite Himg; exact Osub); try (intros Hc; apply Oclosed, Hcl, Hc); try (exists dq; auto); auto.
   - (* close *)
     pose proof (step_shape tlen mtu ses n0 off0 Hn0 Hoff0 Hmtu32 F pinv FK m rv s sp _ Hrep Henv) as Hsh. cbv zeta in Hsh.
-    destruct (sys_step F m rv s SClose) as [s' [[r ds] ms]]. destruct Hsh as (-> & -> & Himg & Hshape & Hcl).
+    destruct (sys_step F m rv s SClose) as [s' [[r ds] ms]]. destruct Hsh as (-> & -> & Himg & Hshape & Hcl & Hsame).
     cbn [result_shape] in Hshape. subst r.
     cbn [fst snd event_of spec_step sys_obs map] in *. unfold image_position. rewrite Hopen'.
     cbn [judge nil_b is_ok0]. rewrite Himg, <- Osub, Z.eqb_refl. cbn [andb].
